@@ -69,7 +69,8 @@ class _PimplLocks(locks.LockAnalysis):
                 raise AnalysisBroken("Transport::Impl is no longer defined in %s" % FILE)
             holders = [(r["name"], fld["n"]) for rs in fb.records.values() for r in rs for fld in r.get("fields", [])
                        if "iora::network::Transport::Impl>" in fld.get("t", "") or fld.get("t", "").startswith(IMPL + " ")]
-            if set(holders) - {("iora::network::Transport", "_impl")}:
+            # (a back-reference kept by Impl itself or by a class nested in it — `Impl &owner` in a guard — leaks nothing)
+            if {h for h in set(holders) if not (h[0] == IMPL or h[0].startswith(IMPL + "::"))} - {("iora::network::Transport", "_impl")}:
                 raise AnalysisBroken("Transport::Impl is held by %s, not only by Transport::_impl: it is no longer a private implementation" % holders[:3])
             taken = {n["n"] for f in fb.functions if f.ok for n in f.nodes.values() if n.get("k") in ("fref", "gref") and isinstance(n.get("n"), str)}
             # … and free functions of the file that take the Impl (or a class nested in it) as a parameter: nobody else has one
